@@ -113,3 +113,32 @@ PROPS = {
 
 for _k, _v in PROPS.items():
     _v['obligations'] = _v['obligations']()
+
+
+# properties whose outcome the reference semantics fix uniquely (DESIGN.md section 4): which differences count
+REFERENCE = {'C06': 'any', 'C07': 'c07', 'C08': 'value', 'C14': 'value', 'C15': 'any', 'C18': 'any', 'C20': 'any'}
+
+
+def _head(a):
+    return a.split(' ;;')[0]
+
+
+def _parserish(h):
+    return h.startswith('err parser') or h.startswith('err opslimit')
+
+
+def reference_failure(kind, d):
+    a, b = d['impl'], d['model']
+    if kind == 'any':
+        return True
+    ha, hb = _head(a), _head(b)
+    if ha.startswith('ok') or hb.startswith('ok'):
+        if kind == 'value':
+            return ha != hb
+        return a != b          # c07: value, names-after, ops, log
+    # both failed: only "language-level ParserError vs anything else" is prescribed
+    if _parserish(ha) != _parserish(hb):
+        return True
+    if kind == 'c07':
+        return a.split(' ;;')[1:] != b.split(' ;;')[1:]     # names-after / ops / log of a failing run
+    return False
